@@ -93,10 +93,12 @@ type refInterp struct {
 	depth    int
 	steps    int
 	file     *parser.SourceFile
-	trace    []int // lines of active call statements (outermost first)
-	lastLine int   // line of the statement being executed
+	trace    []int    // lines of active call statements (outermost first)
+	traceF   []string // files of those call statements
+	lastLine int      // line of the statement being executed
 	// line trace of the last uncaught error: call lines outermost first + failing line
 	errLines []int
+	errFiles []string
 	unsupported string
 }
 
@@ -332,6 +334,11 @@ func (ri *refInterp) exec(s parser.Stmt, env *riEnv) riCtl {
 
 func (ri *refInterp) noteThrow() {
 	ri.errLines = append(append([]int{}, ri.trace...), ri.lastLine)
+	name := ""
+	if ri.file != nil {
+		name = ri.file.Name
+	}
+	ri.errFiles = append(append([]string{}, ri.traceF...), name)
 }
 
 func (ri *refInterp) execDecl(d *parser.GenDecl, env *riEnv) riCtl {
@@ -945,10 +952,16 @@ func (ri *refInterp) callFunc(f *riFunc, args []Object, line int) (Object, *Runt
 		return Undefined, nil
 	}
 	savedFile := ri.file
+	callerName := ""
+	if savedFile != nil {
+		callerName = savedFile.Name
+	}
 	ri.file = f.file
 	ri.trace = append(ri.trace, line)
+	ri.traceF = append(ri.traceF, callerName)
 	c := ri.execStmts(f.lit.Body.Stmts, env)
 	ri.trace = ri.trace[:len(ri.trace)-1]
+	ri.traceF = ri.traceF[:len(ri.traceF)-1]
 	ri.file = savedFile
 	ri.depth--
 	switch c.kind {
@@ -989,10 +1002,18 @@ func (ri *refInterp) evalImport(n *parser.ImportExpr) (Object, riCtl) {
 			ri.unsupported = "module parse error"
 			return Undefined, riNormalCtl
 		}
-		savedFile, savedTrace := ri.file, ri.trace
+		savedFile := ri.file
+		callerName := ""
+		if savedFile != nil {
+			callerName = savedFile.Name
+		}
+		ri.trace = append(ri.trace, ri.line(n))
+		ri.traceF = append(ri.traceF, callerName)
 		ri.file = sf
 		c := ri.execStmts(pf.Stmts, &riEnv{fnTop: true})
-		ri.file, ri.trace = savedFile, savedTrace
+		ri.file = savedFile
+		ri.trace = ri.trace[:len(ri.trace)-1]
+		ri.traceF = ri.traceF[:len(ri.traceF)-1]
 		var v Object = Undefined
 		switch c.kind {
 		case riReturn:
